@@ -4,6 +4,7 @@ import (
 	"context"
 	"errors"
 	"fmt"
+	"sync"
 	"testing"
 	"testing/synctest"
 	"time"
@@ -206,5 +207,126 @@ func TestC19(t *testing.T) {
 		},
 		Gen: genC19,
 		Run: runC19,
+	})
+}
+
+// ---- C19, second part: progress at exactly a timer instant ---------------------------------------
+//
+// When Proceed is called at the very instant at which the retry timer expires, two orders are
+// possible and both are fine: the timer first (one more retry of the *old* step, then the progress
+// resets the budget) or the progress first (no retry at that instant). What the statement excludes is
+// a retry of the *new* step at that instant: after progress the next retry is RetryDelay away.
+
+type c19bCase struct {
+	Count   uint  `json:"count"`
+	DelayNs int64 `json:"delay_ns"`
+	K       int   `json:"timer_instant"` // the progress comes at the K-th timer instant after the start
+	N       int   `json:"transactions"`  // that many transactions do the same at once (the order is the scheduler's)
+}
+
+func runC19b(c c19bCase) (r vf.Result) {
+	start := time.Now()
+	at := func() int64 { return int64(time.Since(start)) }
+	d := c.DelayNs
+	ctx, cancel := context.WithCancel(context.Background())
+	defer cancel()
+	type cb struct {
+		at   int64
+		data int
+	}
+	type one struct {
+		mu     sync.Mutex
+		cbs    []cb
+		doneAt int64
+		rt     *transactions.RetryTransaction
+	}
+	txs := make([]*one, c.N)
+	P := int64(c.K) * d
+	var wg sync.WaitGroup
+	for i := range txs {
+		o := &one{doneAt: -1}
+		txs[i] = o
+		o.rt = transactions.NewRetryTransaction(ctx, time.Duration(d), c.Count, func(data interface{}) error {
+			o.mu.Lock()
+			o.cbs = append(o.cbs, cb{at(), data.(int)})
+			o.mu.Unlock()
+			return nil
+		}, func() {})
+		o.rt.Proceed(0, 0)
+		go func() { <-o.rt.Done(); o.mu.Lock(); o.doneAt = at(); o.mu.Unlock() }()
+		wg.Add(1)
+		go func() {
+			defer wg.Done()
+			time.Sleep(time.Duration(P)) // wakes at the same instant as the K-th expiry of the retry timer
+			o.rt.Proceed(1, 1)
+		}()
+	}
+	wg.Wait()
+	time.Sleep(time.Duration(int64(c.Count+3) * d))
+	synctest.Wait()
+	r.NonTrivial = true
+	for i, o := range txs {
+		o.mu.Lock()
+		cbs, doneAt := o.cbs, o.doneAt
+		o.mu.Unlock()
+		desc := fmt.Sprintf("transaction %d of %d: count=%d delay=%v, Proceed at the %d. timer instant (%d ns)", i, c.N, c.Count, time.Duration(d), c.K, P)
+		var atP, after []cb
+		for _, x := range cbs {
+			switch {
+			case x.at < P:
+				if x.data != 0 || x.at%d != 0 {
+					r.Fail("retry-callback-times", "%s: retry %v before the progress", desc, x)
+					return
+				}
+			case x.at == P:
+				atP = append(atP, x)
+			default:
+				after = append(after, x)
+			}
+		}
+		for _, x := range atP {
+			if x.data == 1 {
+				r.Fail("retry-at-the-instant-of-progress", "%s: the retry callback ran for the new step at the very instant of the progress (callbacks %v); after progress the next retry is one RetryDelay away", desc, cbs)
+				return
+			}
+		}
+		if len(atP) > 1 {
+			r.Fail("too-many-retries", "%s: %d retries at one instant: %v", desc, len(atP), cbs)
+			return
+		}
+		if len(atP) == 1 {
+			r.Label("timer-first")
+		} else {
+			r.Label("progress-first")
+		}
+		for k, x := range after {
+			if x.data != 1 || x.at != P+int64(k+1)*d {
+				r.Fail("retry-callback-times", "%s: retries after the progress %v, expected the new step at %d ns + k x delay", desc, after, P)
+				return
+			}
+		}
+		if len(after) != int(c.Count) {
+			r.Fail("retry-callback-times", "%s: %d retries after the progress, expected %d: %v", desc, len(after), c.Count, cbs)
+			return
+		}
+		if want := P + int64(c.Count+1)*d; doneAt != want || o.rt.Err() != transactions.ErrNoMoreRetries {
+			r.Fail("completion-time", "%s: finished at %d ns with %v, expected 'no more retries' at %d ns", desc, doneAt, o.rt.Err(), want)
+			return
+		}
+	}
+	return
+}
+
+func TestC19Coincide(t *testing.T) {
+	vf.Check(t, vf.Prop[c19bCase]{
+		ID: "C19", Name: "progress-at-timer-instant", Bubble: true,
+		Rule: "1-16 retry transactions (RetryCount 1-4, RetryDelay 1 ms..10 s) each of which gets its progress event (Proceed) from its own goroutine at exactly the K-th expiry of its retry timer (K <= RetryCount), so that the timer goroutine and the progress run at the same virtual instant in the scheduler's order. Every case is non-trivial; distinct by case.",
+		Assumptions: []string{"both orders are accepted: the timer first (one retry of the old step at that instant) or the progress first (none); a retry of the new step at that instant is a violation; afterwards retries of the new step exactly RetryDelay apart and 'no more retries' one RetryDelay after the last"},
+		Gen: func(t *rapid.T) c19bCase {
+			c := c19bCase{Count: uint(rapid.IntRange(1, 4).Draw(t, "count")), DelayNs: rapid.SampledFrom([]int64{1e6, 1e9, 10e9}).Draw(t, "delay"), N: rapid.SampledFrom([]int{1, 4, 16}).Draw(t, "n")}
+			c.K = rapid.IntRange(1, int(c.Count)).Draw(t, "k")
+			return c
+		},
+		Run: runC19b,
 	})
 }
